@@ -56,6 +56,26 @@ var vals = []string{"v", "value-with-some-length", "x", "a-considerably-longer-v
 func genOps(t *rapid.T) []op {
 	n := rapid.IntRange(4, 24).Draw(t, "n")
 	var ops []op
+	if rapid.IntRange(0, 3).Draw(t, "scenario") == 0 {
+		// a key that was volatile, was accessed, and then lost its deadline, followed by other volatile keys
+		// with more accesses and by growth: under the volatile policies it must never be chosen again
+		db := rapid.SampledFrom([]int{0, 0, 1}).Draw(t, "sdb")
+		k := rapid.SampledFrom(keys).Draw(t, "sk")
+		ops = append(ops, op{DB: db, Cmd: []string{"SET", k, rapid.SampledFrom(vals).Draw(t, "sv"), "EX", "1000"}})
+		for i, g := 0, rapid.IntRange(1, 2).Draw(t, "sget"); i < g; i++ {
+			ops = append(ops, op{DB: db, Cmd: []string{"GET", k}})
+		}
+		ops = append(ops, op{DB: db, Cmd: rapid.SampledFrom([][]string{{"PERSIST", k}, {"PERSIST", k}, {"GETEX", k, "PERSIST"}, {"SET", k, "plain"}}).Draw(t, "sdrop")})
+		for _, k2 := range keys {
+			if k2 == k || rapid.IntRange(0, 2).Draw(t, "sother") == 0 {
+				continue
+			}
+			ops = append(ops, op{DB: db, Cmd: []string{"SET", k2, rapid.SampledFrom(vals).Draw(t, "sv2"), "EX", "1000"}})
+			for i, g := 0, rapid.IntRange(0, 4).Draw(t, "sget2"); i < g; i++ {
+				ops = append(ops, op{DB: db, Cmd: []string{"GET", k2}})
+			}
+		}
+	}
 	for i := 0; i < n; i++ {
 		db := rapid.SampledFrom([]int{0, 0, 0, 1}).Draw(t, "db")
 		k := rapid.SampledFrom(keys).Draw(t, "k")
@@ -94,8 +114,11 @@ func present(s *sut.Server) map[keyID]bool {
 	for _, db := range dbs {
 		_ = s.Select(db)
 		for _, k := range keys {
-			if r := s.Do("TYPE", k); !r.Val.IsErr() {
-				if txt, _ := r.Val.Text(); txt != "none" {
+			// PTTL asks the keyspace whether the key exists and for its deadline without reading the value:
+			// unlike TYPE or GET it is not an access, so observing does not touch the eviction bookkeeping
+			// (an access would, for instance, repair a stale cache entry before the pressure reaches it).
+			if r := s.Do("PTTL", k); !r.Val.IsErr() {
+				if n, ok := r.Val.AsInt(); ok && n != -2 {
 					out[keyID{db, k}] = true
 				}
 			}
